@@ -89,8 +89,8 @@ func sameErrVal(a, b ssa.Value) bool { return a == b }
 
 // propCtx parametrises the "must return a non-nil error unless safe" path check.
 type propCtx struct {
-	errv  ssa.Value               // value whose non-nil-ness must be propagated (may be nil)
-	holds func(c cmpNorm) bool    // a comparison known to hold that makes the path safe
+	errv  ssa.Value            // value whose non-nil-ness must be propagated (may be nil)
+	holds func(c cmpNorm) bool // a comparison known to hold that makes the path safe
 	reach map[*ssa.BasicBlock]bool
 	at    ssa.Instruction
 }
@@ -187,6 +187,7 @@ func errPropagated(fn *ssa.Function, at ssa.Instruction, errv ssa.Value) (bool, 
 
 // retOK: value rv flowing into a return (or phi edge) from block `from` is acceptable.
 func (pc *propCtx) retOK(rv ssa.Value, from *ssa.BasicBlock, seen map[ssa.Value]bool) (bool, string) {
+	rv = resolveSpill(rv)
 	if pc.errv != nil && rv == pc.errv {
 		return true, ""
 	}
@@ -249,4 +250,3 @@ func (pc *propCtx) retOK(rv ssa.Value, from *ssa.BasicBlock, seen map[ssa.Value]
 	}
 	return false, fmt.Sprintf("returned value %s is not derived from the failure", rv.Name())
 }
-
